@@ -60,6 +60,12 @@ pub enum Mode {
     DecodeMutations {
         count: u64,
     },
+    /// C16: a sequence of builder calls checked against the reference validity predicate; an
+    /// accepted configuration is then run
+    Builder {
+        calls: Vec<BCall>,
+        start: BStart,
+    },
 }
 
 #[derive(Serialize, Deserialize, Clone, Debug, PartialEq)]
@@ -196,8 +202,40 @@ pub enum Api {
     Disconnect { handle: usize },
     /// misuse calls; the documented error is expected and nothing else may change
     AddInputWrongHandle { handle: usize },
+    /// advance_frame() with a local input missing (polls the network as a side effect)
     AdvanceMissingInput,
     NetStats { handle: usize },
+    /// disconnect_player for a local or unknown handle
+    DisconnectMisuse { handle: usize },
+    /// set_input_delay for a remote, spectator or unknown handle
+    SetDelayMisuse { handle: usize, delay: usize },
+    /// plain poll_remote_clients(): what the twin of AdvanceMissingInput does at that instant
+    Poll,
+}
+
+/// One call on a SessionBuilder (C16, builder half).
+#[derive(Serialize, Deserialize, Clone, Debug, PartialEq)]
+pub enum BCall {
+    NumPlayers(usize),
+    AddLocal(usize),
+    AddRemote(u16, usize),
+    AddSpectator(u16, usize),
+    Window(usize),
+    Delay(usize),
+    Fps(usize),
+    /// 0 = Off, n = On { interval: n - 1 }
+    Desync(u32),
+    Sparse(bool),
+    CheckDistance(usize),
+    MaxFramesBehind(usize),
+    CatchupSpeed(usize),
+}
+
+#[derive(Serialize, Deserialize, Clone, Debug, PartialEq)]
+pub enum BStart {
+    P2P,
+    Spectator,
+    SyncTest,
 }
 
 #[derive(Serialize, Deserialize, Clone, Debug, PartialEq)]
